@@ -194,6 +194,12 @@ def _exec_cat(ctx, case):
     sb["tag"] = sb["tag"] + TAG_B
     fz = case.get("junction", "asis") == "asis"  # other modes edit the trees before the call
     A, B = G.build(sa, frozen_ok=fz), G.build(sb, frozen_ok=fz)
+    if case.get("derived") and fz:
+        # the first tree is one the library derived from a used tree (sorted, re-rooted, or moved
+        # by a float64 matrix, which leaves double-precision coordinates far from the origin)
+        A, sa = G.derive(A, sa, int(case["derived"]), float64_ok=True)
+        if any(v.dtype == np.float64 for v in A.ndata.values()):
+            ctx.count("cat_first_tree_with_float64_coordinates")
     a, b, tr = case["a"], case["b"], case["translate"]
     _place_junction(A, B, a, b, case.get("junction", "asis"), case.get("jseed", 0))
     ca, cb = _cols(A), _cols(B)
@@ -382,6 +388,8 @@ def _workload(ctx):
             tr = bool(rng.random() < 0.5)
             case = {"op": "cat", "A": ra, "B": rb, "a": a, "b": b, "translate": tr,
                     "junction": jn, "jseed": int(rng.integers(0, 2**31 - 1))}
+            if jn == "asis" and rng.random() < 0.3:
+                case["derived"] = int(rng.integers(1, 2**31 - 1))
             ctx.case(case, nontrivial=nb >= 2, klass=f"cat/{jn}/{'tr' if tr else 'notr'}")
             execute(ctx, case)
     if ctx.shard == 0:  # deep chain: re-root at the far end
